@@ -1,9 +1,31 @@
-(* NetQuiescent.v — "run to quiescence" on the FAITHFUL model (NetModel.v): when
-   PetriNetLogic.evaluate_petri_net returns, no transition that it looked at is enabled; for a
-   net that did not grow during the call, no transition at all is enabled.  So when an accepted
-   API call returns there is nothing left to do without a further event (no lost wake-up on the
-   mechanism side).  Also: structural frame facts of the whole mutual block (the net only
-   grows).  Proof file. *)
+(* NetQuiescent.v — "run to quiescence" on the FAITHFUL model (NetModel.v), i.e. no lost
+   wake-up on the mechanism side.
+
+   Headline (section 6): whenever PetriNetLogic.evaluate_petri_net returns, NO transition of the
+   net is enabled -- for every net state, every environment behaviour (re-entrant fire_event from
+   inside notifications) and also when the net grew during the call (parallel loops generate
+   transitions that the running scan, which works on a snapshot, never looks at).  Hence: an
+   accepted fire_event / start leaves nothing enabled, a rejected one leaves the net untouched,
+   and from the constructor on, in every state in which control is with the caller, the net
+   cannot move without a further event ([scheduler_always_quiescent]).
+
+   Sections:
+   1. the bodies of the 3 generator functions and of the 10 functions of the scheduler's mutual
+      block, restated with the recursive calls as parameters ([scan_with], [run_cb_body], ...),
+      and the unfolding equations (all by [reflexivity]; if NetModel.v changes, the equation of
+      the changed function stops compiling and its [*_body] has to be updated -- nothing else);
+   2. a frame rule: a preorder on states that every primitive update respects is respected by
+      every function of the generator and of the block ([frame_generate], [frame_block]);
+      first instance [le_ns]: the net only grows;
+   3. the scan for an ARBITRARY callback runner: a scan ends either with every transition below
+      its snapshot disabled or in the parallel-loop exit ([scan_with_exits]);
+   4. evaluate: the snapshot statement ([evaluate_quiescent]: everything below some n >= the
+      number of transitions at the call is disabled), static nets, fire_event, the public API;
+   5. further frame instances (fields never written, counters/log only grow, places stable);
+   6. the strong form and its consequences up to the API and to call sequences;
+   7. a boolean check for concrete states, scripts, and a non-vacuity example with run-time
+      generation.
+   Proof file. *)
 From PFDL Require Import Examples.
 From PFDL Require Import NetModel NetRun NetC08.
 Local Open Scope net_scope.
@@ -366,7 +388,7 @@ Section Bodies.
        u0 <~ fresh_uuid ;;
        u <~ (if ns_test_ids s then new_test_or_uuid false else nret u0) ;;
        rebind_uuid a ai u ;;~
-       (match a_src a with [] => nret tt | _ :: _ => set_api ai (with_params (a_src a)) end) ;;~
+       set_api ai (with_params (a_src a)) ;;~
        substitute_loop_indexes tasks ai
      else if ns_test_ids s
           then u <~ new_test_or_uuid false ;; rebind_uuid a ai u
@@ -1977,6 +1999,22 @@ Qed.
    parallel loop, an immediately completing service, rejected and junk calls) the 16 calls
    return, the net grows at run time (from 25 to 27 transitions), and every state is found
    quiescent by evaluation as well *)
+Definition inhabited_check : bool :=
+  match net_init (p_tasks (rc_prog ex_case)) true with
+  | Ok s0 =>
+    match net_run_states (p_tasks (rc_prog ex_case)) (env_of ex_case) net_fuel s0 (rc_script ex_case) with
+    | Ok l =>
+      quiescentb s0 && Nat.eqb (List.length l) 16 && Nat.eqb (List.length (ns_trans s0)) 25
+      && existsb (fun bs => Nat.eqb (List.length (ns_trans (snd bs))) 27) l
+      && forallb (fun bs => quiescentb (snd bs)) l
+    | _ => false
+    end
+  | _ => false
+  end.
+
+Lemma inhabited_check_true : inhabited_check = true.
+Proof. vm_compute. reflexivity. Qed.
+
 Example quiescence_inhabited :
   exists s0 l,
     net_init (p_tasks (rc_prog ex_case)) true = Ok s0 /\
@@ -1987,8 +2025,195 @@ Example quiescence_inhabited :
     existsb (fun bs => Nat.eqb (List.length (ns_trans (snd bs))) 27) l = true /\
     forallb (fun bs => quiescentb (snd bs)) l = true.
 Proof.
-  eexists. eexists. split; [vm_compute; reflexivity|].
-  split; [vm_compute; reflexivity|].
-  split; [vm_compute; reflexivity|].
-  repeat split; vm_compute; reflexivity.
+  pose proof inhabited_check_true as H. unfold inhabited_check in H.
+  destruct (net_init (p_tasks (rc_prog ex_case)) true) as [s0| | |] eqn:E0; try discriminate H.
+  destruct (net_run_states (p_tasks (rc_prog ex_case)) (env_of ex_case) net_fuel s0 (rc_script ex_case))
+    as [l| | |] eqn:E1; try discriminate H.
+  exists s0, l.
+  repeat (apply andb_true_iff in H; destruct H as [H ?]).
+  split; [reflexivity|]. split; [assumption|]. split; [exact E1|].
+  split; [apply Nat.eqb_eq; assumption|]. split; [apply Nat.eqb_eq; assumption|]. split; assumption.
 Qed.
+
+(* =========================================================================== *)
+(* 8. the fuel only bounds the search: a result obtained with some fuel is the    *)
+(*    result with any larger fuel                                                 *)
+(* =========================================================================== *)
+Definition mle {A} (m m' : NM A) : Prop := forall s r, m s = Ok r -> m' s = Ok r.
+
+Lemma mle_refl : forall A (m : NM A), mle m m.
+Proof. intros A m s r H. exact H. Qed.
+
+Lemma mle_bind : forall A B (m m' : NM A) (k k' : A -> NM B),
+    mle m m' -> (forall a, mle (k a) (k' a)) -> mle (nbind m k) (nbind m' k').
+Proof.
+  intros A B m m' k k' Hm Hk s [b s'] H. apply nbind_inv in H. destruct H as (a & s1 & H1 & H2).
+  unfold nbind. rewrite (Hm _ _ H1). apply Hk. exact H2.
+Qed.
+
+Lemma mle_nfor : forall A (l : list A) (f f' : A -> NM unit),
+    (forall x, mle (f x) (f' x)) -> mle (nfor l f) (nfor l f').
+Proof.
+  intros A l f f' Hf. induction l as [|x l IH]; cbn [nfor].
+  - apply mle_refl.
+  - apply mle_bind; auto.
+Qed.
+
+Lemma mle_ext : forall A (m1 m1' m2 m2' : NM A),
+    (forall s, m1 s = m1' s) -> (forall s, m2 s = m2' s) -> mle m1' m2' -> mle m1 m2.
+Proof. intros A m1 m1' m2 m2' E1 E2 H s r H1. rewrite E2. apply H. rewrite <- E1. exact H1. Qed.
+
+Create HintDb mle.
+Ltac mle_step :=
+  match goal with
+  | |- mle ?x ?x => apply mle_refl
+  | |- mle (nbind _ _) (nbind _ _) => apply mle_bind; [|intro]
+  | |- mle (nfor _ _) (nfor _ _) => apply mle_nfor; intro
+  | |- mle (if ?b then _ else _) (if ?b then _ else _) => destruct b
+  | |- mle (match ?x with _ => _ end) (match ?x with _ => _ end) => destruct x
+  | |- mle _ _ => solve [auto with mle]
+  end.
+Ltac mle_tac := cbv zeta; repeat mle_step.
+
+Section FuelMono.
+  Variable tasks : list task.
+  Variable env : envcfg.
+
+  Lemma mle_each_with : forall rc rc' index, (forall c, mle (rc c) (rc' c)) ->
+      forall h i, mle (each_with rc index h i) (each_with rc' index h i).
+  Proof.
+    intros rc rc' index Hrc. induction h as [|h IH]; intro i.
+    - apply mle_refl.
+    - cbn [each_with]. fold (each_with rc index). fold (each_with rc' index). mle_tac.
+  Qed.
+
+  Lemma mle_scan_with : forall rc rc' snap, (forall c, mle (rc c) (rc' c)) ->
+      forall g g', g <= g' -> forall index, mle (scan_with rc snap g index) (scan_with rc' snap g' index).
+  Proof.
+    intros rc rc' snap Hrc. pose proof (mle_each_with rc rc') as He.
+    induction g as [|g IH]; intros g' Hle index.
+    - intros s r H. discriminate H.
+    - destruct g' as [|g']; [lia|]. assert (Hle' : g <= g') by lia.
+      cbn [scan_with]. fold (scan_with rc snap). fold (scan_with rc' snap). mle_tac.
+  Qed.
+
+  Lemma mle_parloop_then : forall v lim ctx c csite ph t1 t2 k k',
+      mle k k' -> mle (parloop_then tasks env v lim ctx c csite ph t1 t2 k)
+                      (parloop_then tasks env v lim ctx c csite ph t1 t2 k').
+  Proof. intros. unfold parloop_then. mle_tac. Qed.
+
+  Lemma mle_run_cb_body : forall ev_ ev_' ots ots' otf otf' oss oss' osf osf' sfe sfe',
+      mle ev_ ev_' -> (forall a, mle (ots a) (ots' a)) -> (forall a, mle (otf a) (otf' a)) ->
+      (forall a, mle (oss a) (oss' a)) -> (forall a, mle (osf a) (osf' a)) ->
+      (forall e, mle (sfe e) (sfe' e)) ->
+      forall c, mle (run_cb_body tasks env ev_ ots otf oss osf sfe c)
+                    (run_cb_body tasks env ev_' ots' otf' oss' osf' sfe' c).
+  Proof.
+    intros ev_ ev_' ots ots' otf otf' oss oss' osf osf' sfe sfe' H1 H2 H3 H4 H5 H6 c.
+    pose proof mle_parloop_then as Hp.
+    unfold run_cb_body, await_and_fire. destruct c; mle_tac.
+  Qed.
+
+  Lemma mle_ots_body : forall nu nu', (forall k a b, mle (nu k a b) (nu' k a b)) ->
+      forall ai, mle (ots_body tasks nu ai) (ots_body tasks nu' ai).
+  Proof. intros nu nu' H ai. unfold ots_body. mle_tac. Qed.
+  Lemma mle_oss_body : forall nu nu', (forall k a b, mle (nu k a b) (nu' k a b)) ->
+      forall ai, mle (oss_body tasks nu ai) (oss_body tasks nu' ai).
+  Proof. intros nu nu' H ai. unfold oss_body. mle_tac. Qed.
+  Lemma mle_otf_body : forall nu nu', (forall k a b, mle (nu k a b) (nu' k a b)) ->
+      forall ai, mle (otf_body nu ai) (otf_body nu' ai).
+  Proof. intros nu nu' H ai. unfold otf_body. mle_tac. Qed.
+
+  Lemma mle_notify_each : forall er er' k ai, (forall k a, mle (er k a) (er' k a)) ->
+      forall h i, mle (notify_each er k ai h i) (notify_each er' k ai h i).
+  Proof.
+    intros er er' k ai Her. induction h as [|h IH]; intro i.
+    - apply mle_refl.
+    - cbn [notify_each]. fold (notify_each er k ai). fold (notify_each er' k ai). mle_tac.
+  Qed.
+  Lemma mle_nu_body : forall er er', (forall k a, mle (er k a) (er' k a)) ->
+      forall k ai b, mle (nu_body er k ai b) (nu_body er' k ai b).
+  Proof.
+    intros er er' H k ai b. pose proof (mle_notify_each er er') as Hn. unfold nu_body. mle_tac.
+  Qed.
+  Lemma mle_er_body : forall sfe sfe', (forall e, mle (sfe e) (sfe' e)) ->
+      forall k ai, mle (er_body env sfe k ai) (er_body env sfe' k ai).
+  Proof. intros sfe sfe' H k ai. unfold er_body. mle_tac. Qed.
+  Lemma mle_sfe_body : forall lfe lfe', (forall e, mle (lfe e) (lfe' e)) ->
+      forall ev, mle (sfe_body lfe ev) (sfe_body lfe' ev).
+  Proof. intros lfe lfe' H ev. unfold sfe_body. mle_tac. Qed.
+  Lemma mle_lfe_body : forall ev_ ev_', mle ev_ ev_' -> forall ev, mle (lfe_body ev_ ev) (lfe_body ev_' ev).
+  Proof. intros ev_ ev_' H ev. unfold lfe_body. mle_tac. Qed.
+
+  Theorem fuel_mono_block : forall f f', f <= f' ->
+      mle (evaluate tasks env f) (evaluate tasks env f') /\
+      (forall c, mle (run_cb tasks env f c) (run_cb tasks env f' c)) /\
+      (forall a, mle (on_task_started tasks env f a) (on_task_started tasks env f' a)) /\
+      (forall a, mle (on_service_started tasks env f a) (on_service_started tasks env f' a)) /\
+      (forall a, mle (on_service_finished tasks env f a) (on_service_finished tasks env f' a)) /\
+      (forall a, mle (on_task_finished tasks env f a) (on_task_finished tasks env f' a)) /\
+      (forall k a b, mle (notify_user tasks env f k a b) (notify_user tasks env f' k a b)) /\
+      (forall k a, mle (engine_reacts tasks env f k a) (engine_reacts tasks env f' k a)) /\
+      (forall ev, mle (sched_fire_event tasks env f ev) (sched_fire_event tasks env f' ev)) /\
+      (forall ev, mle (logic_fire_event tasks env f ev) (logic_fire_event tasks env f' ev)).
+  Proof.
+    induction f as [|f IH]; intros f' Hle.
+    - repeat (split; [intros; intros ? ? HH; discriminate HH|]). intros; intros ? ? HH; discriminate HH.
+    - destruct f' as [|f']; [lia|]. assert (Hle' : f <= f') by lia.
+      destruct (IH f' Hle') as (I1 & I2 & I3 & I4 & I5 & I6 & I7 & I8 & I9 & I10).
+      split; [|split; [|split; [|split; [|split; [|split; [|split; [|split; [|split]]]]]]]]; intros.
+      + intros s r HH. rewrite evaluate_S in *. eapply mle_scan_with; eauto.
+      + eapply mle_ext; [intro; apply run_cb_S|intro; apply run_cb_S|]. apply mle_run_cb_body; assumption.
+      + eapply mle_ext; [intro; apply on_task_started_S|intro; apply on_task_started_S|].
+        apply mle_ots_body; assumption.
+      + eapply mle_ext; [intro; apply on_service_started_S|intro; apply on_service_started_S|].
+        apply mle_oss_body; assumption.
+      + eapply mle_ext; [intro; apply on_service_finished_S|intro; apply on_service_finished_S|]. apply I7.
+      + eapply mle_ext; [intro; apply on_task_finished_S|intro; apply on_task_finished_S|].
+        apply mle_otf_body; assumption.
+      + eapply mle_ext; [intro; apply notify_user_S|intro; apply notify_user_S|].
+        apply mle_nu_body; assumption.
+      + eapply mle_ext; [intro; apply engine_reacts_S|intro; apply engine_reacts_S|].
+        apply mle_er_body; assumption.
+      + eapply mle_ext; [intro; apply sched_fire_event_S'|intro; apply sched_fire_event_S'|].
+        apply mle_sfe_body; assumption.
+      + eapply mle_ext; [intro; apply logic_fire_event_S|intro; apply logic_fire_event_S|].
+        apply mle_lfe_body; assumption.
+  Qed.
+
+  Theorem sched_fire_event_fuel_mono : forall f f' ev s r,
+      f <= f' -> sched_fire_event tasks env f ev s = Ok r -> sched_fire_event tasks env f' ev s = Ok r.
+  Proof.
+    intros f f' ev s r Hle H.
+    eapply (proj1 (proj2 (proj2 (proj2 (proj2 (proj2 (proj2 (proj2 (proj2
+             (fuel_mono_block f f' Hle)))))))))); eauto.
+  Qed.
+
+  Theorem evaluate_fuel_mono : forall f f' s r,
+      f <= f' -> evaluate tasks env f s = Ok r -> evaluate tasks env f' s = Ok r.
+  Proof. intros f f' s r Hle H. eapply (proj1 (fuel_mono_block f f' Hle)); eauto. Qed.
+
+  (* the public API: a call that returns with fuel f returns the same with more fuel *)
+  Theorem api_call_fuel_mono : forall f f' s c r,
+      f <= f' -> net_api_call tasks env f s c = Ok r -> net_api_call tasks env f' s c = Ok r.
+  Proof.
+    intros f f' s c r Hle H. unfold net_api_call in *. cbv zeta in *.
+    destruct c as [|id| |k l|o|o]; try exact H.
+    - destruct (existsb (event_eqb EvStart) (ns_awaited (s <| ns_log := [] |>))); [|exact H].
+      destruct (sched_fire_event tasks env f EvStart (s <| ns_log := [] |> <| ns_running := true |>))
+        as [[b s1]| | |] eqn:E; try discriminate H.
+      rewrite (sched_fire_event_fuel_mono _ _ _ _ _ Hle E). exact H.
+    - eapply sched_fire_event_fuel_mono; eauto.
+    - eapply sched_fire_event_fuel_mono; eauto.
+  Qed.
+
+  Theorem net_run_script_fuel_mono : forall f f' cs s r,
+      f <= f' -> net_run_script tasks env f s cs = Ok r -> net_run_script tasks env f' s cs = Ok r.
+  Proof.
+    intros f f' cs. induction cs as [|c cs IH]; intros s r Hle H; cbn [net_run_script] in *; [exact H|].
+    destruct (net_api_call tasks env f s c) as [[b s1]| | |] eqn:E; cbn [rbind] in H; try discriminate H.
+    rewrite (api_call_fuel_mono _ _ _ _ _ Hle E). cbn [rbind].
+    destruct (net_run_script tasks env f s1 cs) as [t| | |] eqn:E2; cbn [rbind] in H; try discriminate H.
+    rewrite (IH _ _ Hle E2). exact H.
+  Qed.
+End FuelMono.
